@@ -123,11 +123,23 @@ def run_numpy(res: Result, dim, system):
     for si, shape in enumerate(NP_SHAPES):
         n = int(np.prod(shape))
         rows = element_rows(dim, system, max(n, 1), offset=3 * si)[:n]
-        for flavor in ("generic", "momentum"):
-            arr = B.make_np(system, flavor, rows if n else element_rows(dim, system, 1), shape=None)
+        for flavor, dtname in [(f, "float64") for f in ("generic", "momentum")] + ([("generic", "int64"), ("momentum", "int32"), ("generic", "float32")] if shape in ((3,), (2, 3)) else []):
+            if dtname != "float64":
+                # coordinate fields typed int64 / int32 / float32, holding small integers (a legal array: vector.array of integer columns)
+                from .C03 import _int_rows
+
+                base = _int_rows(system, "a")
+                rows = [tuple(int(x) + (k // len(base)) * (1 if j != 1 or system[0] == "xy" else 0) for j, x in enumerate(base[k % len(base)])) for k in range(n)]
+                if len(system) > 1 and system[1] == "theta":
+                    rows = [tuple(min(max(x, 1), 3) if j == 2 else x for j, x in enumerate(r)) for r in rows]
+                fn_ = L.field_names(system, flavor)
+                arr = vector.array({name: np.array([r[j] for r in rows], dtype={"int64": np.int64, "int32": np.int32, "float32": np.float32}[dtname]) for j, name in enumerate(fn_)})
+            else:
+                arr = B.make_np(system, flavor, rows if n else element_rows(dim, system, 1), shape=None)
             if n == 0:
                 arr = arr[:0]
             arr = arr.reshape(shape)
+            tol_rel = 1e-11 if dtname != "float32" else 1e-5
             carts = np.array([cart_of(system, flavor, r) for r in rows], dtype=np.float64).reshape(shape + (dim,)) if n else np.zeros(shape + (dim,))
             nonzero = np.any(carts != 0, axis=-1)
             scale = float(np.sum(np.abs(carts))) if n else 1.0
@@ -138,8 +150,8 @@ def run_numpy(res: Result, dim, system):
                         res.states += 1
                         res.evaluations += 1
                         res.transitions += 1
-                        case = {"backend": "NP", "sys": list(system), "flavor": flavor, "shape": list(shape), "axis": axis, "keepdims": keepdims, "reducer": red}
-                        cls = f"{red}|NP|{L.sysname(system)}|shape{shape}|axis={axis}|keepdims={keepdims}"
+                        case = {"backend": "NP", "sys": list(system), "flavor": flavor, "shape": list(shape), "axis": axis, "keepdims": keepdims, "reducer": red, "dtype": dtname}
+                        cls = f"{red}|NP|{L.sysname(system)}|shape{shape}|axis={axis}|keepdims={keepdims}" + ("" if dtname == "float64" else f"|{dtname}")
                         try:
                             if red == "numpy.sum":
                                 r = np.sum(arr, axis=axis, keepdims=keepdims)
@@ -168,7 +180,7 @@ def run_numpy(res: Result, dim, system):
                             if got.shape != np.shape(want):
                                 res.violation(f"shape|{cls}", f"{red} result has shape {got.shape[:-1]}, numpy gives {np.shape(want)[:-1]} for a plain array", case)
                                 continue
-                            if not np.all(np.abs(got - want) <= 1e-11 * max(1.0, scale)):
+                            if not np.all(np.abs(got - want) <= tol_rel * max(1.0, scale)):
                                 res.violation(f"value|{cls}", f"{red} = {got.tolist()}, the sum of Cartesian components is {np.asarray(want).tolist()}", case)
                                 continue
                         if n >= 2 or 0 in shape:
